@@ -58,6 +58,8 @@ def _analyses():
     jvp_axis = lambda c, w: a7_axis.hazards(c, w, modes=("jvp",))
     vjp_reduce = lambda c, w: a3_reduce.reductions(c, w, modes=("vjp",))
     jvp_reduce = lambda c, w: a3_reduce.reductions(c, w, modes=("jvp",))
+    vjp_batch = lambda c, w: a3_reduce.stacked_batches(c, w, modes=("vjp",))
+    jvp_batch = lambda c, w: a3_reduce.stacked_batches(c, w, modes=("jvp",))
     vjp_none = lambda c, w: a7_axis.none_axis(c, w, modes=("vjp",))
     jvp_none = lambda c, w: a7_axis.none_axis(c, w, modes=("jvp",))
     vjp_alias = lambda c, w: a5_factor.alias_agree(c, w, modes=("vjp",))
@@ -71,16 +73,16 @@ def _analyses():
     thread = lambda c, w: kt.global_effects(c, w, thread=True)
     return {
         "C01": (
-            [a3.vjp, a3.helpers, a3.einsum_sublist_target, vjp_reduce, km.squeeze_axes, a16_perm.permutations_rule, a16_perm.norm_rolls, a17_labels.contraction_adjoints, vjp_axis, vjp_none, vjp_order, a2.catchall, a2.forwarded_defaults, vjp_drop, vjp_ignored, a2.variadic, a2.argnums_rules, a2.positional_selection, a1.arity, ka.option_domains, a5_factor.agree, vjp_alias, a5_linear.closures_linear, ka.arraybox_table, kc.inplace_sites],
+            [a3.vjp, a3.helpers, a3.einsum_sublist_target, vjp_reduce, vjp_batch, km.squeeze_axes, a16_perm.permutations_rule, a16_perm.norm_rolls, a17_labels.contraction_adjoints, vjp_axis, vjp_none, vjp_order, a2.catchall, a2.forwarded_defaults, vjp_drop, vjp_ignored, a2.variadic, a2.argnums_rules, a2.positional_selection, a1.arity, ka.option_domains, a5_factor.agree, vjp_alias, a5_linear.closures_linear, ka.arraybox_table, kc.inplace_sites],
             "Reverse-mode exactness is numerical; decided here are the configuration-dependent plumbing clauses every exact rule needs: "
-            "broadcast discipline of VJPs (A3.vjp), negative-axis hazards (A7), axis=None of the flattening functions never replaced by an explicit axis (A7.none), layout-relative `order` values never forwarded to the cotangent (A7.order), keyword/positional binding behind catch-alls (A2.catchall), equal names and defaults where (*args, **kwargs) are forwarded to another NumPy function (A2.fwd), no option handed on incompletely (A2.drop) or accepted and never read (A2.ignored), "
+            "broadcast discipline of VJPs (A3.vjp), batch members of stacked-matrix functions kept apart (A3.batch), negative-axis hazards (A7), axis=None of the flattening functions never replaced by an explicit axis (A7.none), layout-relative `order` values never forwarded to the cotangent (A7.order), keyword/positional binding behind catch-alls (A2.catchall), equal names and defaults where (*args, **kwargs) are forwarded to another NumPy function (A2.fwd), no option handed on incompletely (A2.drop) or accepted and never read (A2.ignored), "
             "variadic offsets (A2.variadic), whole-argnums rules map element-wise (A2.argnums), slots of variadic primitives addressed by position, never by operand identity (A2.position), arity (A1.arity), closed option domains (A6.enum), VJP/JVP factor agreement of elementwise rules (A5), equal rules for two names of one NumPy function (A5.alias), linearity of every rule closure in its cotangent (A5.lin: a VJP is a linear map; helper primitives it calls must be known to be linear in that operand) "
             "and the operator/method call forms (A14); no rule writes in place to its cotangent, its arguments or the answer (A9.inplace: every other rule that reads the same array would see the changed values). Each is a necessary condition: breaking one makes some call configuration silently wrong.",
         ),
         "C02": (
-            [a1.lin, a3.jvp, a3.helpers, jvp_reduce, a16_perm.norm_rolls, ka.sibling_guards, jvp_axis, jvp_none, jvp_order, a2.catchall, a2.forwarded_defaults, jvp_drop, jvp_ignored, a2.positional_selection, a1.arity, kc.zero_paths, a5_factor.agree, jvp_alias, a5_linear.closures_linear, kc.inplace_sites],
+            [a1.lin, a3.jvp, a3.helpers, jvp_reduce, jvp_batch, a16_perm.norm_rolls, ka.sibling_guards, jvp_axis, jvp_none, jvp_order, a2.catchall, a2.forwarded_defaults, jvp_drop, jvp_ignored, a2.positional_selection, a1.arity, kc.zero_paths, a5_factor.agree, jvp_alias, a5_linear.closures_linear, kc.inplace_sites],
             "Forward-mode: 'same'/def_linear only on linear (function, argument) pairs (A1.lin: exactly when the primitive applied to the tangent IS the JVP), "
-            "output-shaped tangents of broadcasting JVPs (A3.jvp), guard agreement with the VJP twin (A6.sibling), axis hazards (A7, A7.none), layout-relative `order` values (A7.order) and binding (A2; slots of variadic primitives addressed by position, A2.position) of JVP makers, "
+            "output-shaped tangents of broadcasting JVPs (A3.jvp), batch members of stacked-matrix functions kept apart (A3.batch), guard agreement with the VJP twin (A6.sibling), axis hazards (A7, A7.none), layout-relative `order` values (A7.order) and binding (A2; slots of variadic primitives addressed by position, A2.position) of JVP makers, "
             "(value, tangent) order and zero tangents of the right space (A13.zero/A2.tuple), VJP/JVP factor agreement of elementwise rules (A5), equal rules for two names of one NumPy function (A5.alias), linearity of every rule in its tangent (A5.lin); no JVP rule writes in place to the tangent, the arguments or the answer it is given (A9.inplace: the tangent stored on the parent node is read again by every later consumer).",
         ),
         "C03": (
@@ -99,10 +101,10 @@ def _analyses():
             "kind decisions never made by dtype == <Python scalar type> (A4.dtypecmp), the shape/dtype template of a rebuilt cotangent taken from the differentiated argument (A4.template), zeros of the argument's / output's space on independent paths (A13.zero), one Box and one VSpace per differentiable type (A1.types), container layout (A2.layout).",
         ),
         "C06": (
-            [kt.trace_fn, kt.wrapper, kt.notrace_wrapper, kt.find_top, kt.new_trace, km.wrap_namespace, ka.arraybox_table, a1.methods, ka.operators, ka.wrapper_signatures, ka.option_packs, km.axis_normalisation_consistency, kc.inplace_sites],
+            [kt.trace_fn, kt.wrapper, kt.notrace_wrapper, kt.find_top, kt.new_trace, km.wrap_namespace, ka.arraybox_table, a1.methods, ka.operators, ka.wrapper_signatures, ka.option_packs, ka.container_boxes, km.axis_normalisation_consistency, kc.inplace_sites],
             "Value transparency: trace() returns the unboxed value; the wrapper calls the raw function unchanged on plain inputs and unboxes exactly one level; ArrayBox's "
             "operator/method/property table follows the Python data model (A14); operators return primal/aux untouched (A15); re-implemented wrappers keep NumPy's optional "
-            "parameter names, positions and defaults (A6.wrapsig) and apply a forwarded option pack exactly once, never per nested element (A6.optpack); no in-place write to a parameter (A9.inplace).",
+            "parameter names, positions and defaults (A6.wrapsig) and apply a forwarded option pack exactly once, never per nested element (A6.optpack); container boxes answer structure queries (len, iteration order, membership) exactly as the raw container does (A14.containers); no in-place write to a parameter (A9.inplace).",
         ),
         "C07": (
             [a8_taint.traceable, a1.helpers, kc.closure_reuse, a5_factor.agree, a5_linear.closures_linear, kt.trace_fn, kt.wrapper, kt.notrace_wrapper, kt.find_top, kt.new_trace],
@@ -494,6 +496,39 @@ def _vspace_members(ctx, world):
         ctx.ob("A1.members", "VSpace.__eq__ compares type and __dict__", True, loc_of(m, fn))
     else:
         ctx.fail("A1.members", "VSpace.__eq__", "autograd.core.VSpace.__eq__", loc_of(m, fn), "VSpace.__eq__ no longer compares both the type and the structure fields", "spaces of a real and a complex array of the same shape, or a list and a tuple")
+
+
+    # an override of __eq__ in any space class still has to separate spaces of different types (a list space and a
+    # tuple space of the same children, a named-tuple result space and a plain tuple space): with the type-equality atom
+    # false its value is False whatever the other comparisons say
+    from .analyses.kernel_core import _vspace_classes as _vsc
+
+    for mod_, cls_ in _vsc(world):
+        if cls_.name == "VSpace" and mod_.name == "autograd.core":
+            continue
+        for st_ in cls_.body:
+            if isinstance(st_, ast.FunctionDef) and st_.name in ("__eq__", "__ne__"):
+                try:
+                    r2_, sy2_, m2_, fn2_, sc2_ = _evf(world, mod_.name, f"{cls_.name}.{st_.name}")
+                except Exception:
+                    r2_ = None
+                inst_ = f"{mod_.name}.{cls_.name}.{st_.name}"
+                okc = False
+                if r2_ is not None:
+                    a2_, b2_ = sy2_["#0"], sy2_["#1"]
+                    ty2 = lambda t, o: (_ict(t, "builtins.type") and len(t.args) == 1 and t.args[0] is o) or (t.op == "attr" and t.name == "__class__" and t.obj is o)
+                    is_t2 = lambda a: a.op == "cmp" and a.opname in ("Eq", "Is") and ((ty2(a.l, a2_) and ty2(a.r, b2_)) or (ty2(a.l, b2_) and ty2(a.r, a2_)))
+                    from .tutil import expand as _exp2
+
+                    # (the inherited comparison, reached through super().__eq__(other) / Base.__eq__(self, other), is
+                    # false for different types: the base clause above)
+                    inh = lambda a: a.op == "call" and a.fn.op == "attr" and a.fn.name == "__eq__" and (_ict(a.fn.obj, "builtins.super") or (a.fn.obj.op == "ref" and a.fn.obj.ref.kind == "repo"))
+                    got = _bval(_unseq(_exp2(world.ev, r2_, ())), lambda a: False if (is_t2(a) or inh(a)) else None)
+                    okc = got is (False if st_.name == "__eq__" else True)
+                if okc:
+                    ctx.ob("A1.members", inst_ + " separates spaces of different types", True, loc_of(mod_, st_))
+                else:
+                    ctx.fail("A1.members", inst_, inst_, loc_of(mod_, st_), f"{cls_.name}.{st_.name} can call two spaces of different types equal: its result is not forced by `type(self) == type(other)`", "vspace([x, y]) == vspace((x, y)): a list and a tuple of the same children")
 
 
 def _namespace_classes(ctx, world):
